@@ -140,7 +140,7 @@ def delimited_text(rows, line_end="\n"):
     return "".join(",".join('"' + cell.replace('"', '""') + '"' for cell in row) + line_end for row in rows)
 
 
-_FIXED_ENDS = {"LF": "\n", "CR": "\r", "CRLF": "\r\n", "Any": "\n", None: "\n"}
+_FIXED_ENDS = {"LF": "\n", "CR": "\r", "CRLF": "\r\n", "Any": "\n", None: "\n", "None": ""}
 
 
 def fixed_text(rows, fmt):
